@@ -12,13 +12,16 @@ var (
 	hostKeys = []string{"", "a b", "\x00\xff", "*", "k[1]", "k1\x00x", "kéy"}
 	strVals  = []string{"", "0", "7", "-3", "+5", "007", "abc", "1.5", "9223372036854775807",
 		"-9223372036854775808", "9223372036854775808", " 1", "1 ", "0x10", "1_0", "\r\n\x00\xfe",
-		"0.25", ".5", "5.", "-0.125", "1e3", "inf", "0.1", "-0", "1.2.3", "2.50", "+", "12a", "NaN"}
+		"0.25", ".5", "5.", "-0.125", "1e3", "inf", "0.1", "-0", "1.2.3", "2.50", "+", "12a", "NaN",
+		"0.3", "1e-3", "2.5E+2", "123456789012345678", "0.30000000000000004", "1e22", "1e23", "4.35", "1e", "1e+", ".e1",
+		"1.7976931348623157e308", "9007199254740993", "0.000001", "1e400", "1e-400", "3.14159", "-1.5e-7", "1e5e5", "2.675"}
 	elemPool  = []string{"a", "b", "c"}
 	hostElems = []string{"", "\x00", "a\r\nb", "\xff\xfe", "*", "[a]", "12", "-0"}
 	fieldPool = []string{"f1", "f2", "f3"}
-	scorePool = []float64{negInf, -1, 0, 0.5, 1, 1, posInf, 2.25, 1024, -0.5}
+	scorePool = []float64{negInf, -1, 0, 0.5, 1, 1, posInf, 2.25, 1024, -0.5, 0.1, 0.7, 1e-3, 1e21, 123456789.123, -0.3}
 	patPool   = []string{"*", "k*", "k?", "?1", "[a-c]*", "k[!1]", "k[^1]", "nomatch", "k[", "k[1-2]", "*1", "a", "f*", "[]a]", "k\\*", ""}
-	fdeltas   = []float64{0.5, -0.25, 1, 1.5, -2, 0, 0.125, 1024, 3.0517578125e-05, 1e15, 0.1}
+	fdeltas   = []float64{0.5, -0.25, 1, 1.5, -2, 0, 0.125, 1024, 3.0517578125e-05, 1e15, 0.1,
+		0.2, 0.3, 1e-7, 123456.789, 1e22, -0.7, 1.0 / 3.0, 2.2250738585072014e-308, 1.7976931348623157e308, 6.02214076e23, -2.5e-9}
 	deltas    = []int{1, -1, 0, 5, -7, 1 << 40, 9223372036854775807, -9223372036854775808}
 )
 
